@@ -58,24 +58,8 @@ func monC17(c *VCtx) {
 	if len(ended) == 0 {
 		return
 	}
-	for _, s := range ended {
-		c.Count("c17_session_ends")
-		if s.Nick != "" {
-			if o := i.nicks[NickToLower(s.Nick)]; o != nil && o.Id == s.Id {
-				c.Report("nickname of an ended session is still owned by it ["+cmdName+"]", fmt.Sprintf("entry %s ended %s but %q still maps to it", e.String(), vid(s.Id), s.Nick))
-			}
-		}
-		for lc, ch := range i.channels {
-			if s.Nick == "" {
-				continue
-			}
-			if _, ok := ch.nicks[NickToLower(s.Nick)]; ok {
-				if o := i.nicks[NickToLower(s.Nick)]; o == nil || o.Id == s.Id {
-					c.Report("ended session is still listed in a channel ["+cmdName+"]", fmt.Sprintf("entry %s ended %s (%q) but %s still lists it", e.String(), vid(s.Id), s.Nick, lc))
-				}
-			}
-		}
-	}
+	vC17Ended(c, i, ended, cmdName, "")
+	vC17Restored(c, cmdName)
 	// observable probe (the instance is discarded after a state change anyway): another
 	// logged-in client takes over the nickname
 	if len(vInvariants(i)) > 0 {
@@ -115,4 +99,69 @@ func monC17(c *VCtx) {
 		}
 		break
 	}
+}
+
+// vC17Ended checks the index and the channels of |i| for the sessions that the entry ended.
+func vC17Ended(c *VCtx, i *IRCServer, ended []*VSess, cmdName, where string) {
+	e := &c.Step.Entry
+	for _, s := range ended {
+		c.Count("c17_session_ends" + where)
+		if s.Nick != "" {
+			if o := i.nicks[NickToLower(s.Nick)]; o != nil && o.Id == s.Id {
+				c.Report("nickname of an ended session is still owned by it ["+cmdName+"]"+where, fmt.Sprintf("entry %s ended %s but %q still maps to it", e.String(), vid(s.Id), s.Nick))
+			}
+		}
+		for lc, ch := range i.channels {
+			if s.Nick == "" {
+				continue
+			}
+			if _, ok := ch.nicks[NickToLower(s.Nick)]; ok {
+				if o := i.nicks[NickToLower(s.Nick)]; o == nil || o.Id == s.Id {
+					c.Report("ended session is still listed in a channel ["+cmdName+"]"+where, fmt.Sprintf("entry %s ended %s (%q) but %s still lists it", e.String(), vid(s.Id), s.Nick, lc))
+				}
+			}
+		}
+	}
+}
+
+var vC17Snap struct {
+	hist []VEntry // kept referenced, so that its address cannot be reused by another history
+	b    []byte
+	err  error
+}
+
+// vC17Restored repeats the entry on a node that was restored from a snapshot of the state just before it
+// (Unmarshal(Marshal(pre))): sessions end the same way there.  Fields that are derived at run time and not
+// part of the snapshot must be rebuilt by the restore for this to hold.
+func vC17Restored(c *VCtx, cmdName string) {
+	if len(c.hist) == 0 {
+		return
+	}
+	if len(vC17Snap.hist) != len(c.hist) || &vC17Snap.hist[0] != &c.hist[0] {
+		pre := VerifBuild(c.hist)
+		b, err := pre.Srv.Marshal(0)
+		vC17Snap.hist, vC17Snap.b, vC17Snap.err = c.hist, b, err
+	}
+	if vC17Snap.err != nil {
+		return // C03 reports this
+	}
+	j := VerifNewServer()
+	if _, err := j.Unmarshal(vC17Snap.b); err != nil {
+		return
+	}
+	rin := &VInst{Srv: j, Hist: append([]VEntry(nil), c.hist...)}
+	if st := rin.Apply(c.Step.Entry); st.Panic != nil {
+		c.Report("ending a session panics on a node restored from a snapshot ["+cmdName+"]", fmt.Sprintf("entry %s: %v", c.Step.Entry.String(), st.Panic))
+		return
+	}
+	c.Count("c17_session_ends_replayed_on_restored_node")
+	var ended []*VSess
+	for id, s := range c.Pre.Sessions {
+		if _, ok := j.sessions[id]; !ok {
+			ended = append(ended, s)
+		} else if _, live := c.In.Srv.sessions[id]; !live {
+			c.Report("session ends on the original node but not on a node restored from a snapshot ["+cmdName+"]", fmt.Sprintf("entry %s: session %s", c.Step.Entry.String(), vid(id)))
+		}
+	}
+	vC17Ended(c, j, ended, cmdName, " (node restored from a snapshot)")
 }
